@@ -268,6 +268,13 @@ def run_check(mod, argv):
             breaks.append({"kind": "correspondence-run", "detail": str(e)[-1500:]})
             corr = {"cases": 0, "nontrivial": 0, "rule": "correspondence could not run", "samples": [],
                     "distribution": {}, "disagreements": [], "spec_failures": []}
+        except Exception:  # noqa — the harness met something in the repository it cannot drive
+            import traceback
+            tb = traceback.format_exc()
+            ctx.log("correspondence harness failed:\n" + tb[-1500:])
+            breaks.append({"kind": "harness", "detail": tb[-2000:]})
+            corr = {"cases": 0, "nontrivial": 0, "rule": "the correspondence harness could not drive the repository",
+                    "samples": [], "distribution": {}, "disagreements": [], "spec_failures": []}
 
     known = load_known_findings(mod.PID)
     known_ids = {e["id"]: e for e in known if e["status"] == "known"}
@@ -279,7 +286,12 @@ def run_check(mod, argv):
     found_inputs = list(corr.get("spec_failures", []))
     if breaks and hasattr(mod, "search"):
         ctx.log("searching for a failing input (%d break(s))" % len(breaks))
-        extra = mod.search(ctx, breaks)
+        try:
+            extra = mod.search(ctx, breaks)
+        except Exception:  # noqa
+            import traceback
+            ctx.log("search failed:\n" + traceback.format_exc()[-1000:])
+            extra = None
         if extra:
             found_inputs += extra
 
